@@ -112,6 +112,13 @@ def findMatchSurvivor := findMatchWith decideSurvivor
 def readAt (d : Dag) (es : Entries) (v : Nat) : Res := (findMatch d es (v + 1) [] v).1
 def readAtSurvivor (d : Dag) (es : Entries) (v : Nat) : Res := (findMatchSurvivor d es (v + 1) [] v).1
 
+/-- `VersionedCtx.GetBestKeyVersion` / `BadgerDB.Get`: what a point read observes — whether a conflict
+    error from `findMatch` is reported or silently becomes "no value" is a regenerated fact -/
+def pointRead (d : Dag) (es : Entries) (v : Nat) : Res :=
+  match readAt d es v with
+  | .err => if Gen.bestKeyPropagatesError then .err else .none
+  | r => r
+
 /-- every parent id is smaller than its child -/
 def Dag.WF (d : Dag) : Prop := ∀ v p, p ∈ d.parents v → p < v
 
